@@ -136,8 +136,8 @@ def s_label(vc):
         return
     raw = buf[off + 1:off + 1 + size]
     st = idna_status(vc, raw)
-    # totality: only a parse error may escape.  Known finding: a plain UnicodeError of the idna codec is not caught.
-    vc.ensure_kf("total.only_parse_error", Or(out.ok, raised_is(out, SE())), "KF-C25-1", st == 2)
+    # totality: only a parse error may escape (a plain UnicodeError of the idna codec was KF-C25-1, fixed in 3ed5b3ac7)
+    vc.ensure("total.only_parse_error", Or(out.ok, raised_is(out, SE())))
     if vc.branch(st == 0):
         vc.ensure("label.ok", out.ok)
         if out.ok:
@@ -468,7 +468,7 @@ def s_compressed(vc):
                     if out.ok:
                         # labels read here followed by the labels of the target name; an empty target name (root) adds none
                         exp = If(len_(rec_name) == 0, join_dots(labs), join_dots(labs + [rec_name])) if labs else rec_name
-                        vc.ensure_kf("pointer.name", out.result[0] == exp, "KF-C25-3", And(len_(rec_name) == 0, len(labs) > 0))
+                        vc.ensure("pointer.name", out.result[0] == exp)  # root target was KF-C25-3, fixed in 51dfc2c2f
                         vc.ensure("pointer.length", out.result[1] == pos + 2 - off)
         else:
             vc.ensure("truncated_or_bad.parse_error", raised_is(out, SE()))
@@ -895,7 +895,7 @@ ASSUMPTIONS = [
 ]
 EXPLANATION = (
     "T1 proves the mechanisms for all inputs: the label step (_unpack_label_into: exact consumption, progress >= 1 octet inside the buffer, "
-    "only struct.error except the recorded idna UnicodeError class), the two label loops over an abstract step (consecutive offsets, join, end offset, "
+    "only struct.error), the two label loops over an abstract step (consecutive offsets, join, end offset, "
     "pointer handling), one activation of the compressed reader with the recursive call abstracted (the offset is marked in the cache before the single "
     "recursive call, re-entry is a parse error: the termination measure), pack (exact RFC 1035 framing for names with <= 3 labels), the label round trip "
     "dec(enc(l)) read back exactly, header flag packing/unpacking against the RFC bit layout over the full field ranges plus the arithmetic glue lemma, "
